@@ -41,11 +41,20 @@ func FromReaders(readers ...io.Reader) (*Dialogue, error) {
 }
 
 // FromReader creates a dialogue tree by reading the content of reader.
-func FromReader(reader io.Reader) (*Dialogue, error) {
+func FromReader(reader io.Reader) (dialogue *Dialogue, err error) {
 	scriptData, err := io.ReadAll(reader)
 	if err != nil {
 		return nil, fmt.Errorf("failed to read content: %w", err)
 	}
+
+	// the lexer and the listener panic on input they cannot handle (eg. indentation mixing tabs and
+	// spaces): report that as an error of the script
+	defer func() {
+		if r := recover(); r != nil {
+			dialogue, err = nil, fmt.Errorf("failed to parse script: %v", r)
+		}
+	}()
+
 	input := antlr.NewInputStream(string(scriptData))
 	var (
 		lexer    = parser.NewYarnSpinnerLexer(input)
@@ -55,6 +64,10 @@ func FromReader(reader io.Reader) (*Dialogue, error) {
 	)
 
 	antlr.ParseTreeWalkerDefault.Walk(listener, p.Dialogue())
+
+	if listener.dialogue == nil || len(listener.dialogue.Nodes) == 0 {
+		return nil, errors.New("script does not contain any node")
+	}
 
 	return listener.dialogue, nil
 }
